@@ -685,7 +685,10 @@ impl<T: GseDecapMemory, C: CrcCalculator, MHEM: MandatoryHeaderExtensionManager>
             < gse_len
         {
             self.last_label = None;
-            self.memory.provision_storage(pdu_buffer).unwrap();
+            // give the buffer back; if the memory refuses it, it is handed to the caller in the error
+            if let Err(err) = self.memory.provision_storage(pdu_buffer) {
+                return Err((DecapError::ErrorMemory(err), pkt_len));
+            }
             return Err((DecapError::ErrorSizePduBuffer, pkt_len));
         }
 
@@ -736,7 +739,10 @@ impl<T: GseDecapMemory, C: CrcCalculator, MHEM: MandatoryHeaderExtensionManager>
         let pdu_buffer_len = pdu_buffer.len();
 
         if pdu_buffer_len < calculed_pdu_len {
-            self.memory.provision_storage(pdu).unwrap();
+            // give the buffer back; if the memory refuses it, it is handed to the caller in the error
+            if let Err(err) = self.memory.provision_storage(pdu) {
+                return Err((DecapError::ErrorMemory(err), pkt_len));
+            }
             return Err((DecapError::ErrorSizePduBuffer, pkt_len));
         }
         pdu_buffer[..calculed_pdu_len].copy_from_slice(&buffer[offset..offset + calculed_pdu_len]);
@@ -787,7 +793,10 @@ impl<T: GseDecapMemory, C: CrcCalculator, MHEM: MandatoryHeaderExtensionManager>
         let pdu_buffer_len = pdu_buffer.len();
 
         if pdu_buffer_len < calculed_pdu_len {
-            self.memory.provision_storage(pdu).unwrap();
+            // give the buffer back; if the memory refuses it, it is handed to the caller in the error
+            if let Err(err) = self.memory.provision_storage(pdu) {
+                return Err((DecapError::ErrorMemory(err), pkt_len));
+            }
             return Err((DecapError::ErrorSizePduBuffer, pkt_len));
         }
 
@@ -816,7 +825,10 @@ impl<T: GseDecapMemory, C: CrcCalculator, MHEM: MandatoryHeaderExtensionManager>
 
         let total_len_received = (pdu_len + PROTOCOL_LEN + first_label_len) as u16;
         if decap_context.total_len != total_len_received {
-            self.memory.provision_storage(pdu).unwrap();
+            // give the buffer back; if the memory refuses it, it is handed to the caller in the error
+            if let Err(err) = self.memory.provision_storage(pdu) {
+                return Err((DecapError::ErrorMemory(err), pkt_len));
+            }
             return Err((DecapError::ErrorTotalLength, pkt_len));
         }
 
@@ -828,7 +840,10 @@ impl<T: GseDecapMemory, C: CrcCalculator, MHEM: MandatoryHeaderExtensionManager>
         );
 
         if calculted_crc != received_crc {
-            self.memory.provision_storage(pdu).unwrap();
+            // give the buffer back; if the memory refuses it, it is handed to the caller in the error
+            if let Err(err) = self.memory.provision_storage(pdu) {
+                return Err((DecapError::ErrorMemory(err), pkt_len));
+            }
             return Err((DecapError::ErrorCrc, pkt_len));
         }
 
